@@ -166,10 +166,43 @@ def c09(res, tier, seed):
                     res.violation("a scan with an 8 s timeout that takes well under a second alone returned %d while 23 other threads were scanning" % e["ret"],
                                   yv.save_replay("C09", "timeouts_t%d" % t, {"thread": t, "ret": e["ret"]}))
                     break
+    # scans that take a memory fault (a mapped file cut after mapping) while other threads scan: each ends with
+    # ERROR_COULD_NOT_MAP_FILE, the thread's signal mask is what it was, the process lives, the other scans are unaffected
+    # (SigHandler.tla: Fault, NeverKilled, MaskRestored; without the saved mask the second fault of a thread kills the process)
+    v = yv.tlc("SigHandler", "MC_SigHandler_nomask.cfg", wd, timeout=300, coverage=False)
+    if not (v["violated"] and ("NeverKilled" in v["violated"] or "MaskRestored" in v["violated"])):
+        raise yv.Broken("non-vacuity run MC_SigHandler_nomask.cfg violated neither NeverKilled nor MaskRestored")
+    res.cov["parts"]["nonvacuity_signal_mask_not_saved"] = "violated as expected"
+    nT = 4 if tier == "quick" else 12
+    bus = ["ext i ext_t 0", "rules - " + yv.hx(b'rule t { strings: $a = "needle" condition: $a }'), "data 0 " + yv.hx(b"a needle in a haystack"), "data 1 " + yv.hx(b"needle")]
+    for t in range(nT):
+        bus += ["thread %d" % t]
+        if t % 2 == 0: bus += ["scan 1 mem - 0 2", "scan 0 bus - 0 1", "scan 1 mem - 0 1", "scan 0 bus - 0 2", "scan 1 mem - 0 1"]
+        else: bus += ["scan 1 mem - 0 %d" % (3 if tier == "quick" else 40), "scan 0 bus - 0 1", "scan 1 file - 0 2"]
+    bus.append("go")
+    for rep in range(2 if tier == "quick" else 6):
+        rc, err, od = run_plan("plain", bus, wd, "bus_%d" % rep, timeout=300)
+        res.count(1, ("bus", nT, rep))
+        if rc != 0:
+            res.violation("scans that take a memory fault: the process ended with %s (%s)" % (rc, err[-200:].replace("\n", " | ")), yv.save_replay("C09", "bus_rc_%d" % rep, {"rc": rc, "stderr": err[-3000:]}))
+            continue
+        for t in range(nT):
+            evs = [json.loads(l) for l in open(os.path.join(od, "thread_%d.ndjson" % t)) if l.strip()]
+            scans = [{"ret": e["ret"], "mask_changed": e["mask_changed"]} for e in evs if e["e"] == "BusScan"]
+            hook_records.append({"kind": "busfault", "scans": scans})
+            hook_owner.append((nT, "bus%d thread %d" % (rep, t), len(scans)))
+            oks = [e["ret"] for e in evs if e["e"] == "ScanRet"]
+            busn = len(scans)
+            if sorted(oks) != sorted([0] * (len(oks) - busn) + [4] * busn) or not any(e["e"] == "Cb" and e["msg"] == "match" for e in evs):
+                res.violation("a thread's ordinary scans are disturbed by scans that take a memory fault: results %s" % oks, yv.save_replay("C09", "bus_t%d_%d" % (t, rep), {"events": evs[:60]}))
     bad, known, states = func.tlc_judge2(hook_records, wd, "c09_hook")
     res.cov["states"] += states; res.cov["transitions"] += states
     for b in bad:
         T, rd, n = hook_owner[b]
+        if hook_records[b]["kind"] == "busfault":
+            res.violation("scans that take a memory fault (%s): %s - each must return ERROR_COULD_NOT_MAP_FILE and leave the signal mask of the calling thread unchanged" % (rd, json.dumps(hook_records[b]["scans"])),
+                          yv.save_replay("C09", "busfault_%s" % str(rd).replace(" ", "_"), {"scans": hook_records[b]["scans"]}))
+            continue
         res.violation("the use-count events of YR_TRYCATCH (%d events, %d threads) are not a behaviour of SigHandler.tla" % (n, T),
                       yv.save_replay("C09", "hook_T%d_r%d" % (T, rd), {"events": hook_records[b]["events"][:400]}))
     res.cov["rule"] = ("per round: a random rule set (strings, rule references, entrypoint, filesize, uint8, tests/pe modules, a per-scanner external) shared by T in {2..32} threads, each with "
